@@ -1,8 +1,5 @@
 use super::*;
 
-/// C18 kernel: the page that record `id` is written to must be a page the node table owns.
-/// The node table owns exactly one allocated page (`start`); any other page id >= start+1 may
-/// belong to another structure.
 #[kani::proof]
 fn i2e_location_stays_in_owned_pages() {
     let start: u64 = kani::any();
@@ -11,5 +8,29 @@ fn i2e_location_stays_in_owned_pages() {
     kani::assume(id < u32::MAX as u64);
     let (page, off) = i2e_location(PageId::new(start), id).unwrap();
     assert!(off + I2E_RECORD_SIZE <= PAGE_SIZE);
-    assert!(page.as_u64() == start); // only `start` was ever obtained from the allocator
+    assert!(page.as_u64() == start);
+}
+
+fn never_exists(_p: &std::path::Path) -> bool { false }
+
+/// C18-O2: node-table write never touches a page the allocator handed to someone else.
+#[kani::proof]
+#[kani::unwind(3)]
+#[kani::stub(std::path::Path::exists, never_exists)]
+fn c18_o2_node_record_vs_foreign_page() {
+    let mut pager = Pager::open("p1").unwrap();
+    let p = pager.allocate_page().unwrap();          // node table start
+    pager.set_i2e_start_page(Some(p)).unwrap();
+    let q = pager.allocate_page().unwrap();          // somebody else's page
+    let mut x = [0u8; PAGE_SIZE];
+    let marker: u8 = kani::any();
+    x[0] = marker; x[15] = marker;
+    pager.write_page(q, &x).unwrap();
+    let id: u64 = 512;
+    let rec = I2eRecord { external_id: kani::any(), label_id: kani::any(), flags: 0 };
+    write_i2e_record(&mut pager, p, id, rec).unwrap();
+    let back = pager.read_page(q).unwrap();
+    let ok = back[0] == marker && back[15] == marker;
+    std::mem::forget(pager);
+    assert!(ok);
 }
